@@ -148,6 +148,18 @@ fn probe<C: ResourceChecker<PathBuf>>(tag: &str, c: &C, p: &PathBuf, s1: &St, s2
           writeln!(out, "w2 {} content={}", tag, b(ok)).unwrap();
         }
       }
+      // the path is removed while the writer is still open: the writer route must see the absence, like the path route
+      match p.write(pie.resource_state_mut::<PathBuf>()) {
+        Err(_) => { writeln!(out, "w3 {} err", tag).unwrap(); }
+        Ok(mut file) => {
+          file.write_all(&content(11, 2)).unwrap();
+          file.flush().unwrap();
+          fs::remove_file(p).unwrap();
+          let st_w = c.stamp_writer(p, file).unwrap();
+          let st_p = c.stamp(p, pie.resource_state_mut::<PathBuf>()).unwrap();
+          writeln!(out, "w3 {} eq={}", tag, b(st_w == st_p)).unwrap();
+        }
+      }
     }
   }
 }
